@@ -36,6 +36,11 @@ def program_sources(seed, ngen, with_corpus=True, corpus_limit=None, ncasc=None)
     for i in range(ngen if ncasc is None else ncasc):
         text = genasm.render_program(genasm.gen_cascade_program(rng))
         out.append(("casc%d" % i, {"mode": "asm", "files": {"main.asm": text}, "roots": ["main.asm"]}))
+    # generated instruction sets with programs written with extra blanks, tabs, comments and other letter case:
+    # the instruction texts that the two matchers (indexed by prefix / plain) must treat alike
+    for i in range(max(10, (ngen if ncasc is None else ncasc) // 3)):
+        Q, decor = genasm.rerender(rng, genasm.gen_program(rng))
+        out.append(("styled%d" % i, {"mode": "asm", "files": {"main.asm": genasm.render_program_decorated(Q, decor)}, "roots": ["main.asm"]}))
     # asm-block macros and user functions (an inner resolution loop inside one outer item)
     for i in range(max(10, (ngen if ncasc is None else ncasc) // 4)):
         out.append(("macro%d" % i, {"mode": "asm", "files": {"main.asm": genasm.render_macro_program(genasm.gen_macro_program(rng))},
